@@ -111,6 +111,7 @@ func RunClientUpdater(statusport int, abort <-chan struct{}) {
 
 	// And also save state every time it's changed, but after a delay of this long.
 	saveDelayAfterChange := time.Second * 2
+	saveDelayAfterChange = verifDuration("updater.saveDelay", saveDelayAfterChange)
 	saveStateOnceTimer := time.NewTimer(saveDelayAfterChange)
 
 	// Here, store the last message of each type seen. Use when storing state.
@@ -195,6 +196,7 @@ func saveState(lastMessages map[string]interface{}) {
 	mainname := viper.ConfigFileUsed()
 	tmpname := strings.Replace(mainname, ".yaml", ".tmp.yaml", 1)
 	bakname := mainname + ".bak"
+	verifPoint("save.begin")
 	err := viper.WriteConfigAs(tmpname)
 	if err != nil {
 		log.Println("Could not store config file ", tmpname, ": ", err)
@@ -202,19 +204,23 @@ func saveState(lastMessages map[string]interface{}) {
 	}
 
 	// Move old config file to backup and new file to standard config name.
+	verifPoint("save.tmpWritten")
 	err = os.Remove(bakname)
 	if err != nil && !os.IsNotExist(err) {
 		log.Println("Could not remove backup file ", bakname, " even though it exists: ", err)
 		return
 	}
+	verifPoint("save.bakRemoved")
 	err = os.Rename(mainname, bakname)
 	if err != nil && !os.IsNotExist(err) {
 		log.Println("Could not save backup file: ", err)
 		return
 	}
+	verifPoint("save.mainMoved")
 	err = os.Rename(tmpname, mainname)
 	if err != nil {
 		log.Printf("Could not update dastard config file %s", mainname)
 	}
+	verifPoint("save.done")
 
 }
